@@ -1,5 +1,6 @@
 SPECIFICATION Spec
 CONSTANTS
   Menus <- MenusQuick
-INVARIANTS CodeIsConjunction LiteralExceptKnown NonCertIsFallback ReasonSound
+  FixTime = TRUE
+INVARIANTS CodeIsConjunction LiteralExceptKnown TimeIsLiteral NonCertIsFallback ReasonSound
 CHECK_DEADLOCK FALSE
